@@ -164,3 +164,67 @@ M("neg_c01_reorder_independent", ["C01"], [], [
                     self.chunk.set(chunk.raw);""", """                    self.chunk.set(chunk.raw);
 
                     chunk.reset();""")], negative=True)
+
+# ---------------------------------------------------------------- C13
+M("c13_remove_deallocates_gates", ["C13"], ["C13.R1"], [
+    ("src/allocator_impl.rs", """    if !S::DEALLOCATES {
+        return;
+    }
+
+    unsafe {
+        // free allocated space""", """    unsafe {
+        // free allocated space"""),
+    ("src/allocator_impl.rs", """    if !S::DEALLOCATES {
+        return;
+    }
+
+    unsafe {
+        let chunk = bump.chunk.get().as_non_dummy_unchecked();""", """    unsafe {
+        let chunk = bump.chunk.get().as_non_dummy_unchecked();""")])
+M("neg_c13_helper_gate_removed_callers_gate", ["C13", "C01"], [], [
+    ("src/allocator_impl.rs", """    if !S::DEALLOCATES {
+        return;
+    }
+
+    unsafe {
+        let chunk = bump.chunk.get().as_non_dummy_unchecked();""", """    unsafe {
+        let chunk = bump.chunk.get().as_non_dummy_unchecked();""")], negative=True)
+M("c13_shrink_ignores_shrinks_setting", ["C13"], ["C13.R1"], [
+    ("src/allocator_impl.rs", "if !S::SHRINKS || !is_last(bump, old_ptr, old_layout) {", "if !is_last(bump, old_ptr, old_layout) {")])
+M("c13_shrink_slice_ignores_setting", ["C13"], ["C13.R1"], [
+    ("src/traits/bump_allocator_typed.rs", """        if !S::SHRINKS {
+            return None;
+        }
+
+        let old_ptr = ptr.cast::<u8>();""", """        let old_ptr = ptr.cast::<u8>();""")])
+M("c13_without_dealloc_forwards", ["C13"], ["C13.R2"], [
+    ("src/without_dealloc.rs", """    unsafe fn deallocate(&self, ptr: NonNull<u8>, layout: Layout) {
+        let _ = (ptr, layout);""", """    unsafe fn deallocate(&self, ptr: NonNull<u8>, layout: Layout) {
+        unsafe { self.0.deallocate(ptr, layout) };""")])
+M("c13_without_shrink_calls_inner_shrink", ["C13"], ["C13.R2"], [
+    ("src/without_dealloc.rs", """            if non_null::is_aligned_to(ptr, new_layout.align()) {
+                Ok(NonNull::slice_from_raw_parts(ptr, new_layout.size()))""", """            if non_null::is_aligned_to(ptr, new_layout.align()) {
+                self.0.shrink(ptr, old_layout, new_layout)""")])
+M("c13_without_shrink_slice_forwards", ["C13"], ["C13.R2"], [
+    ("src/traits/bump_allocator_typed.rs", """        // it's called `WithoutShrink` for a reason...
+        _ = (ptr, old_len, new_len);
+        None""", """        unsafe { B::shrink_slice(&self.0, ptr, old_len, new_len) }""")])
+M("c13_dealloc_down_writes_start", ["C13"], ["C13.R3"], [
+    ("src/allocator_impl.rs", """            let mut addr = ptr.addr().get();
+            addr += layout.size();
+            chunk.set_pos_addr_and_align(addr);""", """            let addr = ptr.addr().get();
+            chunk.set_pos_addr_and_align(addr);""")])
+M("c13_grow_up_returns_moved_ptr_pos_old_size", ["C13"], ["C13.R3"], [
+    ("src/allocator_impl.rs", "let new_pos = up_align_usize_unchecked(old_addr.get() + new_layout.size(), S::MIN_ALIGN);",
+     "let new_pos = up_align_usize_unchecked(old_addr.get() + old_layout.size(), S::MIN_ALIGN);")])
+M("c13_new_backward_mover", ["C13"], ["C13.R4"], [
+    ("src/raw_bump.rs", """    #[inline(always)]
+    pub(crate) fn checkpoint(&self) -> Checkpoint {
+        Checkpoint::new(self.chunk.get())
+    }""", """    #[inline(always)]
+    pub(crate) fn checkpoint(&self) -> Checkpoint {
+        if let Some(chunk) = self.chunk.get().as_non_dummy() {
+            if chunk.allocated() < S::MIN_ALIGN { unsafe { chunk.set_pos(chunk.content_start()) } }
+        }
+        Checkpoint::new(self.chunk.get())
+    }""")])
